@@ -1418,6 +1418,11 @@ walk_elf_notes(kdump_ctx_t *ctx, walk_notes_fn *fn)
 	for (i = 0; i < edp->num_note_segments; ++i) {
 		struct load_segment *seg = edp->note_segments + i;
 
+		ret = check_file_extent(ctx, 0, seg->file_offset,
+					seg->filesz, "ELF notes");
+		if (ret != KDUMP_OK)
+			return ret;
+
 		ret = flatmap_get_chunk(ctx->shared->flatmap, &fch,
 					seg->filesz, 0, seg->file_offset);
 		if (ret != KDUMP_OK)
